@@ -16,6 +16,7 @@ var CorrelateFields = []string{
 	"destinationPodName", "destinationPodNamespace", "destinationNodeName",
 	"destinationClusterIPv4", "destinationClusterIPv6", "destinationServicePort",
 	"ingressNetworkPolicyRuleAction", "egressNetworkPolicyRuleAction", "ingressNetworkPolicyRulePriority",
+	"interfaceName", // an IANA element: correlate fields are whatever the application configures
 }
 
 var StatsNames = []string{"packetTotalCount", "packetDeltaCount", "octetTotalCount", "octetDeltaCount",
@@ -152,6 +153,11 @@ func Record(s Spec) entities.Record {
 	add(entities.NewStringInfoElement(ie("destinationPodName", A), dstPod))
 	add(entities.NewStringInfoElement(ie("destinationPodNamespace", A), s.DstNS))
 	add(entities.NewStringInfoElement(ie("destinationNodeName", A), s.DstNode))
+	ifName := ""
+	if s.DstNode != "" {
+		ifName = "if-of-" + s.DstNode // known to the destination node only
+	}
+	add(entities.NewStringInfoElement(ie("interfaceName", 0), ifName))
 	if k.V6 {
 		ip := net.IP(make([]byte, 16))
 		if s.ClusterIP != "" {
